@@ -403,17 +403,25 @@ def run_check(spec, tier, verif_seed, jobs, repo, runs_override=None, budget_ove
                 for i in range(tcfg['runs']):
                     tasks.append({'id': i, 'prop': prop, 'arm': arm['name'], 'tier': tier,
                                   'seed': run_seed(verif_seed, prop, arm['name'], i),
-                                  'timeout': tcfg.get('run_timeout_s', 60), 'want_trace': i < 3,
+                                  'timeout': float(os.environ.get('VERIF_TEST_TIMEOUT', tcfg.get('run_timeout_s', 60))),
+                                  'want_trace': i < 3,
                                   'arm_params': tcfg.get('params', {})})
                 arm_stat = {'runs': 0, 'nontrivial': 0, 'violating_runs': 0}
+                retry, retried = [], set()
 
                 def on_result(tid, res, arm=arm, arm_stat=arm_stat):
                     agg['evaluations'] += 1
                     arm_stat['runs'] += 1
                     agg['run_wall'] += res.get('wall', 0)
                     if res.get('harness_error'):
-                        if res.get('timeout'):
+                        if res.get('timeout') and tid not in retried:
+                            # on a loaded machine a run can exceed its wall-clock allowance: it is executed once more
+                            # below, on its own and with four times the allowance, before it counts as an error
                             agg['timeouts'] += 1
+                            retry.append(tid)
+                            arm_stat['runs'] -= 1
+                            agg['evaluations'] -= 1
+                            return
                         agg['harness_errors'].append({'arm': arm['name'], 'index': tid,
                                                       'error': res['harness_error'][-3000:]})
                         return
@@ -458,7 +466,14 @@ def run_check(spec, tier, verif_seed, jobs, repo, runs_override=None, budget_ove
                 deadline = t_start + tcfg['budget_s'] if not digests_only else None
                 t_arm = time.time()
                 deadline = t_arm + tcfg['budget_s']
+                by_id = {t['id']: t for t in tasks}
                 pool.map(tasks, deadline=deadline, on_result=on_result)
+                if retry:
+                    retried.update(retry)
+                    again = [dict(by_id[i], timeout=4 * by_id[i]['timeout']) for i in retry]
+                    arm_stat['runs_repeated_after_timeout'] = len(again)
+                    for t in again:         # one at a time
+                        pool.map([t], deadline=None, on_result=on_result)
                 arm_stat['wall_s'] = round(time.time() - t_arm, 1)
                 arm_stat['planned_runs'] = tcfg['runs']
                 agg['arms'][arm['name']] = arm_stat
